@@ -118,6 +118,9 @@ func (x *Exec) execInstr(fr *Frame, st *State, ins ssa.Instruction) error {
 	case *ssa.Alloc:
 		elem := ins.Type().Underlying().(*types.Pointer).Elem()
 		fr.Env[ins] = x.Alloc(st, elem, ins.Type())
+		if pv, ok := fr.Env[ins].(PtrV); ok && x.privateAlloc(ins) {
+			x.livePriv = append(x.livePriv, pv)
+		}
 		if ins.Comment != "" {
 			fr.Names["&"+ins.Comment] = append(fr.Names["&"+ins.Comment], ins)
 		}
